@@ -54,10 +54,13 @@ def match_known(sig, known):
     return None
 
 
-def execute(mod, choices=None, seed=None):
+def execute(mod, choices=None, seed=None, by_label=None):
     """Run one simulated execution. Returns a result dict (never raises for run-level outcomes)."""
     from . import play
-    ch = Chooser(seed=seed) if choices is None else Chooser(replay=choices)
+    if by_label is not None:
+        ch = Chooser(by_label=by_label)
+    else:
+        ch = Chooser(seed=seed) if choices is None else Chooser(replay=choices)
     ctx = play.Ctx()
     res = {'ok': True, 'violation': None, 'aborted': None}
     with warnings.catch_warnings():
@@ -86,6 +89,7 @@ def execute(mod, choices=None, seed=None):
                 res['aborted'] = info
     res['choices'] = ch.values
     res['labelled'] = ch.labelled
+    res['grouped'] = ch.grouped
     res['counts'] = ctx.counts
     res['faults'] = ctx.faults
     res['nontrivial'] = ctx.nontrivial
@@ -145,7 +149,7 @@ def same_class(a, b):
     return a['sig'] == b['sig']
 
 
-def minimise(mod, choices, info, budget_s=60, max_exec=400):
+def minimise(mod, choices, info, budget_s=30, max_exec=160):
     """Shrink a failing choice list while the same violation class persists."""
     t0 = time.time()
     n_exec = 0
@@ -219,6 +223,78 @@ def distinct_by_kind(tags):
     return dict(sorted(out.items()))
 
 
+def minimise_by_label(mod, groups, info, budget_s=90, max_exec=700):
+    """Second minimisation stage, on the label-keyed form of the choices ({label: [values]}): whole labels to
+    zero, shortest failing prefix per label, then single values to zero / lower.  Returns (groups, stats)."""
+    t0 = time.time()
+    n_exec = 0
+    best = {k: list(v) for k, v in groups.items()}
+
+    def fails(cand):
+        nonlocal n_exec
+        if n_exec >= max_exec or time.time() - t0 > budget_s:
+            return False
+        n_exec += 1
+        try:
+            r = execute(mod, by_label=cand)
+        except Exception:       # noqa: BLE001
+            return False
+        return r['violation'] is not None and same_class(r['violation'], info)
+
+    def size(g):
+        return sum(1 for v in g.values() for x in v if x)
+
+    if not fails(best):
+        return None, {'executions': n_exec, 'note': 'label-keyed form did not reproduce'}
+    before = size(best)
+    for _round in range(2):
+        # 1. a whole label to zero (configuration labels come first: fewer players, plain blinds, int chips, ...)
+        for label in list(best):
+            if any(best[label]):
+                cand = dict(best)
+                cand[label] = []
+                if fails(cand):
+                    best = cand
+        # 2. shortest prefix of each label (the rest exhausted = simplest choices)
+        for label in list(best):
+            vals = best[label]
+            if len(vals) <= 1:
+                continue
+            lo, hi = 0, len(vals)
+            while lo < hi:
+                mid = (lo + hi) // 2
+                cand = dict(best)
+                cand[label] = vals[:mid]
+                if fails(cand):
+                    hi = mid
+                else:
+                    lo = mid + 1
+            if hi < len(vals):
+                cand = dict(best)
+                cand[label] = vals[:hi]
+                if fails(cand):
+                    best = cand
+        # 3. single values: zero, then halve
+        for label in list(best):
+            for i in range(len(best[label])):
+                v = best[label][i]
+                if not v:
+                    continue
+                for nv in (0, v // 2, v - 1):
+                    if nv == v:
+                        continue
+                    cand = dict(best)
+                    cand[label] = best[label][:i] + [nv] + best[label][i + 1:]
+                    if fails(cand):
+                        best = cand
+                        break
+        if n_exec >= max_exec or time.time() - t0 > budget_s:
+            break
+    best = {k: v for k, v in best.items() if any(v)}
+    return best, {'executions': n_exec, 'seconds': round(time.time() - t0, 2), 'nonzero_choices_before': before,
+                  'nonzero_choices_after': size(best)}
+
+
 def git_id(path):
     try:
         return subprocess.run(['git', '-C', path, 'rev-parse', '--short', 'HEAD'], capture_output=True,
@@ -231,11 +307,16 @@ def write_replay(mod, seed, run, info, original, minimal, min_stats):
     rdir = os.environ.get('VERIF_REPLAY_DIR') or os.path.join(VERIF, 'replays')
     os.makedirs(rdir, exist_ok=True)
     res = execute(mod, choices=minimal)
+    by_label, lstats = minimise_by_label(mod, res['grouped'](), info)
+    if by_label is not None:
+        res = execute(mod, by_label=by_label)
     path = os.path.join(rdir, f'{mod.ID}-{seed}-{run}.json')
     doc = {
         'property': mod.ID, 'verif_seed': seed, 'run': run,
         'violation': info,
         'choices': minimal,
+        'choices_by_label': by_label,
+        'minimisation_by_label': lstats,
         'choices_labelled': res['labelled'](),
         'original_choices': original,
         'minimisation': min_stats,
@@ -251,7 +332,10 @@ def write_replay(mod, seed, run, info, original, minimal, min_stats):
 
 def replay(mod, path):
     doc = json.load(open(path))
-    res = execute(mod, choices=doc['choices'])
+    if doc.get('choices_by_label') is not None:
+        res = execute(mod, by_label=doc['choices_by_label'])       # the minimised, label-keyed form
+    else:
+        res = execute(mod, choices=doc['choices'])
     v = res['violation']
     if v is None:
         print(f'REPLAY property={mod.ID} no violation reproduced (the tree under test may have changed)')
